@@ -156,7 +156,7 @@ func genSeq(t *rapid.T) Seq {
 
 func TestSequences(t *testing.T) {
 	pbt.Run(t, pbt.Sub[Seq]{
-		Name: "sequences", Quick: 40000, Thorough: 1200000,
+		Name: "sequences", Quick: 40000, Thorough: 400000,
 		Gen: genSeq, Check: checkSeq,
 	})
 }
